@@ -304,7 +304,20 @@ func runC15(r *R) {
 	}
 	yaml, csv := c15YAML(scs, rows, plainPost, funcs, listTempl, twin)
 	descFile := "/ammo/scenario.yaml"
+	// one YAML description in three: the first step (auth) carries a header whose template looks at a *later* step of
+	// the scenario. Values come from earlier steps of the same invocation only: nothing has been captured for that step
+	// when auth is rendered, whatever earlier invocations on the same instance captured
+	fwd := w.Draw(3) == 0
+	if fwd {
+		for i := range scs {
+			p := fmt.Sprintf("s%d", i)
+			yaml = strings.Replace(yaml, fmt.Sprintf("    uri: /%s/auth\n    tag: a%d\n    headers:\n", p, i),
+				fmt.Sprintf("    uri: /%s/auth\n    tag: a%d\n    headers:\n      X-Fwd: '{{with .request.%s_list}}captured{{else}}none{{end}}'\n", p, i, p), 1)
+		}
+		r.Note("forward-reference-in-first-step")
+	}
 	if w.Draw(4) == 0 {
+		fwd = false
 		// the same description written in HCL
 		yaml = c15HCL(scs, rows, plainPost, funcs, listTempl, twin)
 		descFile = "/ammo/scenario.hcl"
@@ -604,6 +617,12 @@ func runC15(r *R) {
 				// request list (20 ms and more) does not fit in
 				if slack := 6*lat + 5*time.Millisecond; !stalls && gap > sc.Steps[j-1].Sleep+slack {
 					r.Fail("pause-too-long", "in %s the step %d (%s) arrived %v after step %d, the configured pause is %v (one-way latency %v; request list %s)", sc.Name, j, in.kinds[j], gap, j-1, sc.Steps[j-1].Sleep, lat, strings.Join(sc.Lines, ", "))
+					return
+				}
+			}
+			if j == 0 && fwd {
+				if fv := strings.Join(rq.Hdr["X-Fwd"], ","); fv != "none" {
+					r.Fail("variable-flow/from-another-invocation", "the first step of an invocation of %s was rendered with X-Fwd: %q: its template `{{with .request.<list step>}}captured{{else}}none{{end}}` saw values of a step that has not run in this invocation (request list %s)", sc.Name, fv, strings.Join(sc.Lines, ", "))
 					return
 				}
 			}
